@@ -10,14 +10,16 @@ META = {
                  "differential correspondence: generated vote multisets are turned into real signature-proof maps (real ed25519 "
                  "signatures), run through the real Go methods and through the model evaluated with vm_compute inside coqc; a "
                  "Coq monitor recomputes the summary from the bitsets on the implementation's observations; single-message "
-                 "scenarios on the real Mirror observe the voting round",
+                 "scenarios (compared with the model) and multi-message sub-minority histories (monitors after every message) "
+                 "on the real Mirror observe the voting round and the voting view's summary",
     "level": "Full for the summary functions: for all validator power lists with sum < 2^64 and all maps target->signer bitset "
              "(any number of targets per validator, any iteration order): block power = power of the distinct signers, "
              "available = sum, total = power of the UNION of the signer sets, most voted = least hash among the targets of "
              "maximal power, all invariant under permutation of the entries; signers of distinct power below ByzantineMinority "
              "cannot reach any threshold the mirror kernel or the state machine's step function compares against "
-             "(no round skip, no delay step, not fully voted). The mirror-level consequence is observed on the real Mirror for "
-             "single vote messages, not proved over all mirror histories.",
+             "(no round skip, no delay step, not fully voted). At mirror level the consequence is proved for one message on a "
+             "fresh mirror (mirror_predict) and observed on the real Mirror for single messages and multi-message histories; "
+             "it is not proved over all mirror histories.",
     "note": "Trusted: Coq kernel; the translator for tsi/step.go (cross-checked by the correspondence run); the hand-written model of "
             "votesummary.go/votedistribution.go/kernel.go comparisons (tied by differential execution on every run); "
             "bits-and-blooms/bitset and ed25519. The repo carries a fix: commit (totals from the union bitset); on the "
